@@ -11,6 +11,7 @@
   closer that panics (a panic in a goroutine kills the process; Close has no recover).
 -/
 import IocProofs.Lemmas.ConcPaths
+import IocProofs.Lemmas.ConcWait
 
 namespace Ioc.C14
 open Ioc.Conc
@@ -93,6 +94,25 @@ theorem C14_no_block (n : Nat) (errs : Nat → Bool) (s : St) (h : Reach cfg n e
   · intro j hj
     refine ⟨?_, by rw [ho.calls j hj, hc1]⟩
     rw [ho.wpc j hj]; exact hfr1 j hj
+
+/-- Slow closers never keep the others from being invoked, in its strongest form: for every number of closers there is a
+    schedule that brings ALL n closers inside their Close() at the same moment — each invoked exactly once, none of them
+    returned yet. So closers that return only once every peer has been entered (scenario `closew`) are all released.
+    (A fixed pool of k goroutines cannot have more than k closers inside at once.) -/
+theorem C14_all_inside_together (n : Nat) (errs : Nat → Bool) :
+    ∃ s, Reach cfg n errs s ∧ ∀ i, i < n → s.wpc i = .calling ∧ s.calls i = 1 := by
+  have hspawn : cfg.spawn = true := cfg_joined.2.1
+  let s0 : St := { init with mainPc := 1, wg := init.wg + (if cfg.addFirst then (n : Int) else 0) }
+  have hs0 : Steps cfg n errs init s0 := Steps.tail _ _ _ (Steps.refl init) (Step.add init rfl)
+  obtain ⟨s1, hs1, _, _, hw1, _, _, _⟩ := main_spawns cfg hspawn n errs n s0 rfl (by simp [s0, init])
+  have hready : ∀ j, j < n → s1.wpc j = .ready := by
+    intro j hj
+    rw [hw1 j, if_pos (by simp [s0, init]; omega)]
+  obtain ⟨s2, hs2, hin, _, _, _⟩ := workers_enter cfg n errs n s1 hready
+  have hreach : Reach cfg n errs s2 := Steps.trans hs0 (Steps.trans hs1 hs2)
+  refine ⟨s2, hreach, fun i hi => ⟨hin i hi, ?_⟩⟩
+  have := (finv_reach cfg_joined hreach).1.calls_eq i
+  rw [hin i hi] at this; simpa [preCall] using this
 
 /-- no closers: nothing is spawned, nothing is called, and Close returns -/
 theorem C14_zero (errs : Nat → Bool) :
@@ -193,5 +213,11 @@ example : Reach cfg 3 (fun i => i == 1) (schedule cfg 3 (fun i => i == 1) 200 7 
   ⟨schedule_sound cfg 3 _ 200 7 init, by unfold mainReturned; decide⟩
 
 example : (schedule cfg 3 (fun i => i == 1) 200 7 init).calls 2 = 1 := by decide
+
+/-- the run the driver makes for `closew 5 2 8 3` (five closers that wait for each other, closer 1 fails, closer 3 returns
+    at once) is a run of the system and ends with Close returned: nobody had to give up -/
+example : Reach cfg 5 (fun i => i == 1) (scheduleW cfg 5 (fun i => i == 1) (fun i => i == 3) 280 3 init) ∧
+    mainReturned (scheduleW cfg 5 (fun i => i == 1) (fun i => i == 3) 280 3 init) :=
+  ⟨scheduleW_sound cfg 5 _ _ 280 3 init, by unfold mainReturned; decide⟩
 
 end Ioc.C14
